@@ -4,7 +4,7 @@ import numpy as np
 from vlib import scenario, record
 
 LEVEL = "exploration"
-RULE = ("every evolventDensity m in 2..12 x every dimension N in 2..5 x boxes of every kind x objectives (cones, sines, linear, noise); each "
+RULE = ("every evolventDensity m in 2..12 x every dimension N in 2..5 x boxes of every kind x objectives (cones, sines, linear, noise), the density given by constructor keyword, positionally, by attribute assignment, and by re-assigning it on one parameters object reused for several Solvers; each "
         "global-phase trial point must satisfy ((y-lower)/side)*2^m - 1/2 = integer in [0,2^m) within 1e-6 (cell centres of different "
         "densities never coincide, so membership in the configured grid excludes every other density). Non-trivial: >= 10 trials; "
         "distinct = (N, m, box kind, family, number of distinct cells visited).")
@@ -25,11 +25,64 @@ def cases(tier, seed):
                 out.append({"N": N, "lower": lo, "upper": hi, "box": kind, "obj": obj, "r": float(rng.choice([2.0, 3.0, 4.5])),
                             "eps": max(2.0 ** (-m), scenario.eps_floor(N, m)) * 1.01, "iters": int(rng.choice([40, 80, 150])) if tier == "quick" else int(rng.choice([60, 150, 300])),
                             "m": m, "refine": False,
-                            "pattern": [["solve"]] if rep % 2 == 0 else [["iter", 7], ["solve"]]})
+                            "pattern": [["solve"]] if rep % 2 == 0 else [["iter", 7], ["solve"]],
+                            "params_how": ["ctor", "assign", "positional", "assign"][(rep + m) % 4]})
+    # one SolverParameters object reused for a sweep over densities: the user changes p.evolventDensity between Solvers
+    nsw = 12 if tier == "quick" else 120
+    for i in range(nsw):
+        rng = scenario.rng_for(seed, "C20S", i)
+        N = int(rng.integers(2, 6))
+        lo, hi, kind = scenario.gen_box(rng, N)
+        obj = scenario.gen_objective(rng, N, ["cones", "sines", "linear", "wells"])
+        ms = [int(v) for v in rng.permutation(np.arange(2, min(12, 50 // N) + 1))[:5]]
+        out.append({"sweep": ms, "N": N, "lower": lo, "upper": hi, "box": kind, "obj": obj, "r": 3.0, "eps": 0.02, "iters": 40, "m": ms[0],
+                    "refine": False, "start": ["default", "ctor"][i % 2]})
     return out
 
 
+def grid_violations(glog, lo, side, m, dens, viol, cells):
+    for e in glog:
+        q = (e["y"] - lo) / side * (2.0 ** m) - 0.5
+        j = np.rint(q)
+        if np.any(np.abs(q - j) > 1e-6) or np.any(j < 0) or np.any(j >= 2 ** m):
+            if len(viol) < 3:
+                viol.append({"mech": "trial-off-configured-grid", "m": m, "evolvent_density_attr": dens, "point": e["y"].tolist(),
+                             "grid_coordinate": q.tolist()})
+        cells.add(tuple(int(v) for v in j))
+
+
+def run_sweep(scn):
+    import contextlib
+    import io
+    from iOpt.solver import Solver
+    from iOpt.solver_parametrs import SolverParameters
+    lo = np.array(scn["lower"], dtype=float)
+    side = np.array(scn["upper"], dtype=float) - lo
+    viol, cells, trials = [], set(), 0
+    p = SolverParameters() if scn["start"] == "default" else SolverParameters(eps=0.5, r=2.0, itersLimit=5, evolventDensity=scn["sweep"][-1])
+    p.r, p.itersLimit = scn["r"], scn["iters"]
+    for m in scn["sweep"]:
+        p.evolventDensity = m
+        p.eps = max(scn["eps"], 2.0 ** (-m) * 1.01)
+        prob, _ = record.make_problem(scn, cap=scn["iters"] + 8)
+        with contextlib.redirect_stdout(io.StringIO()):
+            s = Solver(prob, parameters=p)
+            s.Solve()
+        glog = [e for e in prob.log if e["ph"] == "g"]
+        trials += len(glog)
+        c = set()
+        grid_violations(glog, lo, side, m, getattr(s.evolvent, "evolventDensity", None), viol, c)
+        cells |= {(m,) + t for t in c}
+    obs = {"runs": len(scn["sweep"]), "sweeps_over_one_parameters_object": 1, "trials": trials, "distinct_cells": len(cells),
+           "densities": list(scn["sweep"]), "dims": [scn["N"]]}
+    return {"violations": viol, "obs": obs, "nontrivial": trials >= 10,
+            "key": "sweep|%d|%s|%s|%d" % (scn["N"], scn["sweep"], scn["obj"]["fam"], len(cells)),
+            "sample": None}
+
+
 def run_case(scn):
+    if "sweep" in scn:
+        return run_sweep(scn)
     t = record.run_solver(scn, listener=False)
     if t.fp_exhausted:
         return {"violations": [], "obs": {"fp_domain_exhausted": 1}, "skip": "fp-domain-exhausted"}
@@ -45,15 +98,9 @@ def run_case(scn):
         dens = int(t.solver.evolvent.evolventDensity)
     except Exception:
         dens = None
-    for e in glog:
-        q = (e["y"] - lo) / side * (2.0 ** m) - 0.5
-        j = np.rint(q)
-        if np.any(np.abs(q - j) > 1e-6) or np.any(j < 0) or np.any(j >= 2 ** m):
-            if len(viol) < 3:
-                viol.append({"mech": "trial-off-configured-grid", "m": m, "evolvent_density_attr": dens, "point": e["y"].tolist(),
-                             "grid_coordinate": q.tolist()})
-        cells.add(tuple(int(v) for v in j))
-    obs = {"runs": 1, "trials": len(glog), "distinct_cells": len(cells), "densities": [m], "dims": [scn["N"]]}
+    grid_violations(glog, lo, side, m, dens, viol, cells)
+    obs = {"runs": 1, "trials": len(glog), "distinct_cells": len(cells), "densities": [m], "dims": [scn["N"]],
+           "params_" + scn.get("params_how", "ctor"): 1}
     nt = len(glog) >= 10
     return {"violations": viol, "obs": obs, "nontrivial": nt,
             "key": "%d|%d|%s|%s|%d" % (scn["N"], m, scn["box"], scn["obj"]["fam"], len(cells)) if nt else None,
@@ -65,4 +112,7 @@ def finalize(obs, tier, stats):
         return "not every density/dimension was exercised", {}
     if obs.get("trials", 0) < 3000:
         return "too few trials", {}
+    miss = [k for k in ("params_ctor", "params_assign", "params_positional", "sweeps_over_one_parameters_object") if not obs.get(k)]
+    if miss:
+        return "ways of configuring the density never exercised: %s" % miss, {}
     return None, {}
